@@ -50,6 +50,19 @@ Definition S256 (x : Z) : Z := if x <? tt255 then x else x - tt256.
 Definition big_Div (x y : Z) : Z := Z.sgn y * (x / Z.abs y).
 Definition big_Mod (x y : Z) : Z := x mod Z.abs y.
 
+(* ------------------------------------------------- narrowing a big.Int to a machine word *)
+
+(* Every place where the Go code narrows a 256-bit stack word (x.Uint64(), x.Int64(), int(..),
+   uint(..)) is written with these, at the same place as in the Go code, so that a guard that is
+   moved or dropped shows up in the correspondence run. *)
+Definition two64 : Z := 2 ^ 64.
+Definition wrap64 (x : Z) : Z := x mod two64.
+(* big.Int.Uint64(): the low 64 bits of |x| *)
+Definition big_Uint64 (x : Z) : Z := wrap64 (Z.abs x).
+(* int64(x) of a uint64 value / big.Int.Int64() of a non-negative big.Int *)
+Definition to_int64 (u : Z) : Z := if u <? 2 ^ 63 then u else u - two64.
+Definition big_Int64 (x : Z) : Z := to_int64 (big_Uint64 x).
+
 (* ------------------------------------------------------ instructions.go: arithmetic *)
 
 (* opAdd *)
@@ -107,7 +120,7 @@ Definition op_EXP (base exponent : Z) : Z := math_Exp base exponent.
    the stack unchanged), which is the same as returning it. *)
 Definition op_SIGNEXTEND (back num : Z) : Z :=
   if back <? 31 then
-    let bit := back * 8 + 7 in
+    let bit := wrap64 (big_Uint64 back * 8 + 7) in       (* uint(back.Uint64()*8 + 7) *)
     let mask := Z.shiftl 1 bit - 1 in
     if Z.testbit num bit then U256 (Z.lor num (Z.lnot mask))
     else U256 (Z.land num mask)
@@ -143,7 +156,7 @@ Definition math_Byte (bigint padlength n : Z) : Z :=
   else Z.land (Z.shiftr bigint (8 * (padlength - 1 - n))) 255.
 (* opByte *)
 Definition op_BYTE (th val : Z) : Z :=
-  if th <? 32 then math_Byte val 32 th else 0.
+  if th <? 32 then math_Byte val 32 (big_Int64 th) else 0.   (* int(th.Int64()) *)
 
 (* opAddmod: z.Cmp(bigZero) > 0 *)
 Definition op_ADDMOD (x y z : Z) : Z :=
@@ -156,19 +169,19 @@ Definition op_MULMOD (x y z : Z) : Z :=
 Definition op_SHL (shift0 value0 : Z) : Z :=
   let shift := U256 shift0 in
   let value := U256 value0 in
-  if shift >=? 256 then 0 else U256 (Z.shiftl value shift).
+  if shift >=? 256 then 0 else U256 (Z.shiftl value (big_Uint64 shift)).   (* uint(shift.Uint64()) *)
 (* opSHR *)
 Definition op_SHR (shift0 value0 : Z) : Z :=
   let shift := U256 shift0 in
   let value := U256 value0 in
-  if shift >=? 256 then 0 else U256 (Z.shiftr value shift).
+  if shift >=? 256 then 0 else U256 (Z.shiftr value (big_Uint64 shift)).
 (* opSAR: value.Sign() > 0 decides the saturated result *)
 Definition op_SAR (shift0 value0 : Z) : Z :=
   let shift := U256 shift0 in
   let value := S256 value0 in
   if shift >=? 256 then
     (if Z.sgn value >? 0 then U256 0 else U256 (-1))
-  else U256 (Z.shiftr value shift).
+  else U256 (Z.shiftr value (big_Uint64 shift)).
 
 (* ----------------------------------------------- dispatch on a stack (head = top) *)
 
@@ -203,9 +216,7 @@ Definition exec_arith (op : Z) (st : list Z) : res (list Z) :=
 
 (* ------------------------------------------------ uint64 arithmetic (common/math/integer.go) *)
 
-Definition two64 : Z := 2 ^ 64.
 Definition maxU64 : Z := two64 - 1.
-Definition wrap64 (x : Z) : Z := x mod two64.
 
 (* math.SafeAdd: x+y (wrapped), y > MaxUint64-x *)
 Definition SafeAdd (x y : Z) : Z * bool := (wrap64 (x + y), y >? maxU64 - x).
@@ -216,7 +227,6 @@ Definition SafeMul (x y : Z) : Z * bool :=
 
 (* big.Int.BitLen / Uint64 *)
 Definition BitLen (x : Z) : Z := Z.log2 (Z.abs x) + (if x =? 0 then 0 else 1).
-Definition big_Uint64 (x : Z) : Z := wrap64 (Z.abs x).
 (* common.go bigUint64 *)
 Definition bigUint64 (v : Z) : Z * bool := (big_Uint64 v, BitLen v >? 64).
 
@@ -510,9 +520,6 @@ Definition arith_const_gas (op : Z) : option Z :=
    [list Z] with entries in [0,256), as for [has].  These are the per-instruction functions the
    interpreter model (C07) composes; each takes exactly what the Go function reads. *)
 
-(* int64(x) of a uint64 value / big.Int.Int64() of a non-negative big.Int *)
-Definition to_int64 (u : Z) : Z := if u <? 2 ^ 63 then u else u - two64.
-Definition big_Int64 (x : Z) : Z := to_int64 (big_Uint64 x).
 
 Definition blen (l : list Z) : Z := Z.of_nat (length l).
 (* l[s:e] for 0 <= s <= e <= len l *)
@@ -806,3 +813,19 @@ Definition select_rules (c : rulescfg) (num : Z) : rules :=
    value = stack.Back(2) *)
 Definition enforceRestrictions (isByzantium readOnly writes isCall : bool) (value : Z) : bool :=
   isByzantium && readOnly && (writes || (isCall && (BitLen value >? 0))).
+
+(* ================================================================== third wave (additions only) *)
+
+(* opBlockhash: the range test is on the big.Int; num.Uint64() is taken only inside it.
+   getHash = evm.GetHash (as an integer), number = evm.BlockNumber *)
+Definition op_BLOCKHASH (getHash : Z -> Z) (number num : Z) : Z :=
+  let n := number - 257 in
+  if (num >? n) && (num <? number) then getHash (big_Uint64 num) else 0.
+
+(* memory_table.go memoryCall (= memoryCallCode): BigMax of the return range and the input range;
+   memoryDelegateCall / memoryStaticCall are the same on their operand positions; memoryCreate *)
+Definition memoryCall (inOffset inSize retOffset retSize : Z) : Z :=
+  let x := calcMemSize retOffset retSize in
+  let y := calcMemSize inOffset inSize in
+  if x <? y then y else x.
+Definition memoryCreate (offset size : Z) : Z := calcMemSize offset size.
